@@ -291,6 +291,30 @@ Schur product theorem). -/
 theorem C05_psd_holds : C05_psd :=
   fun _ _ _ hq hqp hp2 hL T _ _ xs w => Kernel.lpq_gram_psd hq hqp hp2 hL T xs w
 
+/-- **C05, the Gram matrix the code's own chain computes is positive semi-definite and has the Gram consequences.**  Everything
+above is stated for the closed form; through `gen_pipeline_eq_model` it holds for the value the regenerated chain of
+`LpqLaplaceKernel._get_kernel_matrix_impl` (`Gen.KernelOps.lpq`) yields entry by entry: the quadratic form is non-negative for every
+weight vector, any centers (repeated ones included), transform and `0 < q ≤ p ≤ 2`; the matrix is symmetric with unit diagonal
+and entries in `(0, 1]`. -/
+theorem gen_lpq_gram_psd {p q L : ℝ} (hq : 0 < q) (hqp : q ≤ p) (hp2 : p ≤ 2) (hL : 0 < L)
+    (T : Transform ℝ) {d n : ℕ} (xs : Fin n → Fin d → ℝ) (w : Fin n → ℝ) :
+    0 ≤ ∑ i, ∑ j, w i * w j * KernelOps.genEntry (.lpq p q L) T (List.ofFn (xs i)) (List.ofFn (xs j)) := by
+  have hv : Valid (.lpq p q L) := ⟨hL, hq, lt_of_lt_of_le hq hqp⟩
+  have e : ∀ a b : List ℝ, KernelOps.genEntry (.lpq p q L) T a b = entry (.lpq p q L) T a b :=
+    fun a b => gen_pipeline_eq_model (.lpq p q L) hv T a b (by intro h; cases h)
+  simp only [e]
+  exact C05_psd_holds p q L hq hqp hp2 hL T d n xs w
+
+theorem gen_lpq_gram_consequences {p q L : ℝ} (hq : 0 < q) (hp : 0 < p) (hL : 0 < L) (T : Transform ℝ) (x z : List ℝ) :
+    KernelOps.genEntry (.lpq p q L) T x z = KernelOps.genEntry (.lpq p q L) T z x ∧
+    KernelOps.genEntry (.lpq p q L) T x x = 1 ∧
+    0 < KernelOps.genEntry (.lpq p q L) T x z ∧ KernelOps.genEntry (.lpq p q L) T x z ≤ 1 := by
+  have hv : Valid (.lpq p q L) := ⟨hL, hq, hp⟩
+  have e := fun a b => gen_pipeline_eq_model (.lpq p q L) hv T a b (by intro h; cases h)
+  rw [e x z, e z x, e x x]
+  exact ⟨symm _ T x z (by intro h; cases h), diag_one _ hv T x (by intro h; cases h),
+    range _ hv T x z (by intro h; cases h)⟩
+
 /-- L2 Laplace kernel (`LaplaceKernel`: `'l2'`, `'l2_high_dim'`, …), exponent `0 < q ≤ 2`. -/
 theorem psd_laplace {q L : ℝ} (hq : 0 < q) (hq2 : q ≤ 2) (hL : 0 < L) (T : Transform ℝ) {d n : ℕ}
     (xs : Fin n → Fin d → ℝ) (w : Fin n → ℝ) :
